@@ -418,7 +418,16 @@ impl<CS: BbsCiphersuite> PoKSignature<BBSplus<CS>> {
         let api_id = CS::API_ID_BLIND;
 
         let U = proof.m_cap.len();
-        let M = disclosed_indexes.len() + disclosed_commitment_indexes.len() + U - 1 - L;
+        // L and the indexes are chosen by the caller: no unchecked arithmetic on them
+        let M = (disclosed_indexes.len() + disclosed_commitment_indexes.len() + U)
+            .checked_sub(1)
+            .and_then(|m| m.checked_sub(L))
+            .ok_or_else(|| Error::PoKSVerificationError("invalid L".to_owned()))?;
+        if disclosed_commitment_indexes.iter().any(|&j| j >= M) {
+            return Err(Error::PoKSVerificationError(
+                "Invalid disclosed indexes".to_owned(),
+            ));
+        }
 
         let (message_scalars, generators) = prepare_parameters::<CS>(
             Some(disclosed_messages),
